@@ -148,11 +148,6 @@ Qed.
 
 (** * copypath *)
 
-(* the test of the first statement: true = return without doing anything *)
-Definition skip_test (dsize : nat) (source dest : path) (f : fs) : bool :=
-  negb (exists_b f source)
-  || (exists_b f dest && (getsize dsize f source <=? getsize dsize f dest)).
-
 (* the handling of the first part and the loop over the middle parts are one loop over all
    parts but the last (none for a dest of at most one part) *)
 Lemma make_ancestors_loop dest f :
@@ -168,15 +163,17 @@ Lemma copypath_run_unfold dsize source dest f :
        | Raised f2 => Raised f2
        | Ok f2 => shutil_copy source dest f2
        end.
-Proof.
-  unfold copypath_run. fold (skip_test dsize source dest f).
-  now rewrite make_ancestors_loop.
-Qed.
+Proof. unfold copypath_run. now rewrite make_ancestors_loop. Qed.
 
 Lemma proper_prefix_neq (p l : path) : proper_prefix p l -> p <> l.
 Proof.
   intros (rest & N & E) ->. apply (f_equal (@length _)) in E. rewrite app_length in E.
   destruct rest; [contradiction | cbn in E; lia].
+Qed.
+
+Lemma proper_prefix_length (p l : path) : proper_prefix p l -> length p < length l.
+Proof.
+  intros (rest & N & ->). rewrite app_length. destruct rest; [contradiction | cbn; lia].
 Qed.
 
 Lemma firstn_removelast_prefix (dest : path) k :
@@ -221,17 +218,19 @@ Qed.
 Lemma skip_test_ext dsize source dest f g :
   lookup g source = lookup f source -> lookup g dest = lookup f dest ->
   skip_test dsize source dest g = skip_test dsize source dest f.
-Proof. intros S D. unfold skip_test, exists_b, getsize. now rewrite S, D. Qed.
+Proof. intros S D. unfold skip_test, exists_b, is_dir_b, getsize. now rewrite S, D. Qed.
 
-Lemma copy_target_ext source dest f g :
-  lookup g dest = lookup f dest -> copy_target g source dest = copy_target f source dest.
-Proof. intros D. unfold copy_target, is_dir_b. now rewrite D. Qed.
+Lemma is_dir_b_ext dest f g : lookup g dest = lookup f dest -> is_dir_b g dest = is_dir_b f dest.
+Proof. intros D. unfold is_dir_b. now rewrite D. Qed.
 
+(* past the guard: the source exists and dest is not a directory *)
 Lemma skip_test_false dsize source dest f :
-  skip_test dsize source dest f = false -> exists_b f source = true.
+  skip_test dsize source dest f = false ->
+  exists_b f source = true /\ is_dir_b f dest = false.
 Proof.
   unfold skip_test. intros H. apply orb_false_elim in H. destruct H as [H _].
-  now apply negb_false_iff in H.
+  apply orb_false_elim in H. destruct H as [H1 H2].
+  split; [now apply negb_false_iff in H1 | exact H2].
 Qed.
 
 (* shutil.copy either raises and leaves everything as it is, or writes the one target *)
@@ -252,119 +251,91 @@ Proof.
   intros E. apply path_eqb_eq in E. congruence.
 Qed.
 
+Lemma copy_target_not_dir f source dest : is_dir_b f dest = false -> copy_target f source dest = dest.
+Proof. intros H. unfold copy_target. now rewrite H. Qed.
+
 (** ** What copypath can change: a complete description *)
 Theorem copypath_changes : forall dsize source dest f p,
   copypath dsize source dest f p = f p \/
   (exists_b f source = true /\ is_new_ancestor f p dest /\
    copypath dsize source dest f p = Some Dir) \/
-  (exists data, lookup f source = Some (File data) /\ p <> source /\
-                p = copy_target f source dest /\
+  (exists data, lookup f source = Some (File data) /\ p <> source /\ p = dest /\
+                is_dir_b f dest = false /\
                 copypath dsize source dest f p = Some (File data)).
 Proof.
   intros dsize source dest f p. unfold copypath. rewrite copypath_run_unfold.
   destruct (skip_test dsize source dest f) eqn:T; [left; reflexivity|].
-  pose proof (skip_test_false _ _ _ _ T) as ES.
+  destruct (skip_test_false _ _ _ _ T) as [ES ND].
   pose proof (ancestors_phase dest f p) as AP. cbv zeta in AP.
   pose proof (ancestors_phase_dest dest f) as AD.
   pose proof (ancestors_phase_source dest f source ES) as AS.
   destruct (mkdir_loop [] (removelast dest) f) as [f2|f2] eqn:M; cbn [fs_of] in *.
-  - destruct (shutil_copy_cases source dest f2) as [-> | (data & LS & NE & _ & _ & ->)];
+  - assert (ND2 : is_dir_b f2 dest = false) by (now rewrite (is_dir_b_ext dest f f2 AD)).
+    destruct (shutil_copy_cases source dest f2) as [-> | (data & LS & NE & _ & _ & ->)];
     cbn [fs_of].
     + destruct AP as [S | [NA D]]; [left; exact S | right; left; auto].
-    + rewrite (copy_target_ext source dest f f2 AD) in *.
-      destruct (path_eqb p (copy_target f source dest)) eqn:PT.
+    + rewrite (copy_target_not_dir f2 source dest ND2) in *.
+      destruct (path_eqb p dest) eqn:PT.
       * apply path_eqb_eq in PT. right; right. exists data.
-        split; [congruence|]. split; [congruence|]. split; [exact PT|].
+        split; [congruence|]. split; [congruence|]. split; [exact PT|]. split; [exact ND|].
         subst p. apply upd_same.
       * unfold upd. rewrite PT.
         destruct AP as [S | [NA D]]; [left; exact S | right; left; auto].
   - destruct AP as [S | [NA D]]; [left; exact S | right; left; auto].
 Qed.
 
-Lemma proper_prefix_length (p l : path) : proper_prefix p l -> length p < length l.
-Proof.
-  intros (rest & N & ->). rewrite app_length. destruct rest; [contradiction | cbn; lia].
-Qed.
-
-Lemma copy_target_length f source dest : length dest <= length (copy_target f source dest).
-Proof.
-  unfold copy_target. destruct (is_dir_b f dest); [rewrite app_length; lia | lia].
-Qed.
-
-Lemma dest_prefix_copy_target f source dest : prefix dest (copy_target f source dest).
-Proof.
-  unfold copy_target. destruct (is_dir_b f dest).
-  - now exists [basename source].
-  - exists []. now rewrite app_nil_r.
-Qed.
-
 Lemma lookup_file f p data : lookup f p = Some (File data) -> f p = Some (File data).
 Proof. destruct p; [discriminate | auto]. Qed.
 
-(** ** Frame.  With t the path shutil.copy writes to (dest, or dest/basename(source) when
-    dest is an existing directory): everything except t and the newly created ancestor
-    directories of dest is unchanged, and t afterwards is its old content or exactly the
-    source's content. *)
+(** ** Frame (C14_copypath_frame as planned): everything except dest and the newly created
+    ancestor directories of dest is unchanged, and dest afterwards is its old content or
+    exactly the source's content. *)
 Theorem copypath_frame : forall dsize source dest f,
   let f' := copypath dsize source dest f in
-  let t := copy_target f source dest in
-  (forall p, p <> t -> ~ is_new_ancestor f p dest -> f' p = f p) /\
-  (f' t = f t \/ f' t = f source).
+  (forall p, p <> dest -> ~ is_new_ancestor f p dest -> f' p = f p) /\
+  (f' dest = f dest \/ f' dest = f source).
 Proof.
   intros dsize source dest f. cbv zeta. split.
   - intros p NT NA.
     destruct (copypath_changes dsize source dest f p) as [S | [(_ & A & _) | (d & _ & _ & E & _)]];
     [exact S | contradiction | contradiction].
-  - destruct (copypath_changes dsize source dest f (copy_target f source dest))
-      as [S | [(_ & (_ & PP & _) & _) | (d & LS & _ & _ & W)]].
+  - destruct (copypath_changes dsize source dest f dest)
+      as [S | [(_ & (_ & PP & _) & _) | (d & LS & _ & _ & _ & W)]].
     + left; exact S.
-    + apply proper_prefix_length in PP.
-      pose proof (copy_target_length f source dest). lia.
+    + now apply proper_prefix_neq in PP.
     + right. rewrite W. symmetry. now apply lookup_file.
 Qed.
 
-(* The statement as planned in DESIGN.md (with dest in place of t) holds when dest is not
-   an existing directory ... *)
-Theorem copypath_frame_partial : forall dsize source dest f,
+(* kept for its name: the special case that was all that held before ff51958 *)
+Corollary copypath_frame_partial : forall dsize source dest f,
   is_dir_b f dest = false ->
   let f' := copypath dsize source dest f in
   (forall p, p <> dest -> ~ is_new_ancestor f p dest -> f' p = f p) /\
   (f' dest = f dest \/ f' dest = f source).
+Proof. intros dsize source dest f _. apply copypath_frame. Qed.
+
+(** ** A destination that is a directory, or already as long as the source, or a missing
+    source: nothing is touched *)
+Theorem copypath_dir_dest_untouched : forall dsize source dest f,
+  is_dir_b f dest = true -> copypath_run dsize source dest f = Ok f.
 Proof.
-  intros dsize source dest f ND. pose proof (copypath_frame dsize source dest f) as H.
-  cbv zeta in *. unfold copy_target in H. now rewrite ND in H.
+  intros dsize source dest f D. unfold copypath_run, skip_test. rewrite D.
+  now rewrite orb_true_r.
 Qed.
 
-(* ... and is FALSE otherwise: when dest is an existing directory whose reported size is below
-   the source's size, shutil.copy puts the file INTO it. *)
-Definition refute_fs : fs :=
-  fs_of_list [ (["s"], Dir); (["s"; "big"], File (repeat "x"%char 5));
-               (["d"], Dir); (["d"; "name"], Dir) ]%string.
-
-Theorem copypath_frame_refuted :
-  exists dsize source dest f p,
-    p <> dest /\ ~ is_new_ancestor f p dest /\ copypath dsize source dest f p <> f p.
-Proof.
-  exists 4, ["s"; "big"]%string, ["d"; "name"]%string, refute_fs, ["d"; "name"; "big"]%string.
-  split; [discriminate|]. split.
-  - intros (_ & PP & _). apply proper_prefix_length in PP. cbn in PP. lia.
-  - vm_compute. discriminate.
-Qed.
-
-(** ** A destination that is already as long as the source is never touched *)
 Theorem copypath_full_length_untouched : forall dsize source dest f,
   exists_b f dest = true ->
   getsize dsize f dest >= getsize dsize f source ->
   copypath_run dsize source dest f = Ok f.
 Proof.
-  intros dsize source dest f E G. rewrite copypath_run_unfold. unfold skip_test.
+  intros dsize source dest f E G. unfold copypath_run, skip_test.
   rewrite E. apply Nat.leb_le in G. rewrite G. now rewrite orb_true_r.
 Qed.
 
 Theorem copypath_missing_source_untouched : forall dsize source dest f,
   exists_b f source = false -> copypath_run dsize source dest f = Ok f.
 Proof.
-  intros dsize source dest f E. rewrite copypath_run_unfold. unfold skip_test. now rewrite E.
+  intros dsize source dest f E. unfold copypath_run, skip_test. now rewrite E.
 Qed.
 
 (** ** The source is never modified (no side condition is needed: when shutil.copy would
@@ -380,35 +351,25 @@ Proof.
   - contradiction.
 Qed.
 
-(** ** Everything copypath creates or writes is the write target or an ancestor of it *)
+(** ** Everything copypath creates or writes is dest or an ancestor of dest *)
 Theorem copypath_targets_under_dest_parent : forall dsize source dest f p,
-  copypath dsize source dest f p <> f p -> prefix p (copy_target f source dest).
+  copypath dsize source dest f p <> f p -> prefix p dest.
 Proof.
   intros dsize source dest f p NE.
   destruct (copypath_changes dsize source dest f p)
     as [S | [(_ & (_ & (r & _ & E) & _) & _) | (d & _ & _ & E & _)]].
   - contradiction.
-  - destruct (dest_prefix_copy_target f source dest) as [r' E']. exists (r ++ r').
-    now rewrite E', E, app_assoc.
+  - now exists r.
   - exists []. now rewrite app_nil_r.
 Qed.
 
+(* kept for its name *)
 Corollary copypath_targets_under_dest_parent_partial : forall dsize source dest f p,
   is_dir_b f dest = false ->
   copypath dsize source dest f p <> f p -> prefix p dest.
-Proof.
-  intros dsize source dest f p ND NE.
-  pose proof (copypath_targets_under_dest_parent dsize source dest f p NE) as H.
-  unfold copy_target in H. now rewrite ND in H.
-Qed.
+Proof. intros dsize source dest f p _. apply copypath_targets_under_dest_parent. Qed.
 
 (** ** Idempotence: a second copypath changes nothing more *)
-
-Lemma exists_b_upd f t n q : exists_b f q = true -> exists_b (upd f t n) q = true.
-Proof.
-  unfold exists_b. destruct q as [|x q]; [auto|]. cbn [lookup]. unfold upd.
-  destruct (path_eqb (x :: q) t); auto.
-Qed.
 
 Theorem copypath_idempotent : forall dsize source dest f p,
   copypath dsize source dest (copypath dsize source dest f) p = copypath dsize source dest f p.
@@ -417,53 +378,29 @@ Proof.
   rewrite (copypath_run_unfold dsize source dest f).
   destruct (skip_test dsize source dest f) eqn:T.
   { cbn [fs_of]. now rewrite copypath_run_unfold, T. }
-  pose proof (skip_test_false _ _ _ _ T) as ES.
+  destruct (skip_test_false _ _ _ _ T) as [ES ND].
   pose proof (ancestors_phase_dest dest f) as AD.
   pose proof (ancestors_phase_source dest f source ES) as AS.
   pose proof (mkdir_loop_idem (removelast dest) [] f) as IDEM.
   destruct (mkdir_loop [] (removelast dest) f) as [f2|f2] eqn:M; cbn [fs_of] in *.
   - assert (T2 : skip_test dsize source dest f2 = false)
       by (now rewrite (skip_test_ext dsize source dest f f2 AS AD)).
+    assert (ND2 : is_dir_b f2 dest = false) by (now rewrite (is_dir_b_ext dest f f2 AD)).
     destruct (shutil_copy_cases source dest f2) as [C | (data & LS & NE & DT & DP & C)];
     rewrite C; cbn [fs_of].
     + now rewrite copypath_run_unfold, T2, IDEM, C.
-    + set (t := copy_target f2 source dest) in *. set (g := upd f2 t (File data)).
+    + (* dest is now a file as long as the source: the second call returns at once *)
+      rewrite (copy_target_not_dir f2 source dest ND2) in *.
+      set (g := upd f2 dest (File data)).
+      assert (DN : dest <> []) by (intros ->; discriminate ND2).
       assert (GS : lookup g source = Some (File data)).
       { unfold g. rewrite lookup_upd_other by exact NE. exact LS. }
-      destruct (is_dir_b f2 dest) eqn:DD.
-      * (* dest is a directory: the file goes into it, and does so again *)
-        assert (Et : t = dest ++ [basename source]) by (unfold t, copy_target; now rewrite DD).
-        assert (DT' : dest <> t).
-        { rewrite Et. intros E. apply (f_equal (@length _)) in E. rewrite app_length in E.
-          cbn in E. lia. }
-        assert (GD : lookup g dest = lookup f2 dest).
-        { unfold g. now rewrite lookup_upd_other by exact DT'. }
-        assert (TG : skip_test dsize source dest g = false).
-        { rewrite (skip_test_ext dsize source dest f2 g); [exact T2 | congruence | exact GD]. }
-        assert (MG : mkdir_loop [] (removelast dest) g = Ok g).
-        { apply mkdir_loop_all_exist. intros k Hk. unfold g. apply exists_b_upd.
-          eapply mkdir_loop_ok_exists; eassumption. }
-        assert (CG : shutil_copy source dest g = Ok (upd g t (File data))).
-        { unfold shutil_copy. rewrite (copy_target_ext source dest f2 g GD). fold t.
-          rewrite GS. rewrite (path_eqb_neq _ _ NE).
-          assert (X1 : is_dir_b g t = false).
-          { unfold is_dir_b, g. rewrite lookup_upd_same; [reflexivity|].
-            rewrite Et. apply snoc_not_nil. }
-          assert (X2 : is_dir_b g (parent t) = true).
-          { unfold parent. rewrite Et, removelast_last. unfold is_dir_b. rewrite GD.
-            exact DD. }
-          now rewrite X1, X2. }
-        rewrite copypath_run_unfold, TG, MG, CG. cbn [fs_of].
-        unfold g, upd. destruct (path_eqb p t); reflexivity.
-      * (* dest is (now) a file as long as the source: the second call returns at once *)
-        assert (Et : t = dest) by (unfold t, copy_target; now rewrite DD).
-        assert (DN : dest <> []) by (intros ->; discriminate DD).
-        assert (GD : lookup g dest = Some (File data)).
-        { unfold g. rewrite Et. now apply lookup_upd_same. }
-        assert (TG : skip_test dsize source dest g = true).
-        { unfold skip_test, exists_b, getsize. rewrite GS, GD. cbn.
-          now rewrite Nat.leb_refl. }
-        now rewrite copypath_run_unfold, TG.
+      assert (GD : lookup g dest = Some (File data)).
+      { unfold g. now apply lookup_upd_same. }
+      assert (TG : skip_test dsize source dest g = true).
+      { unfold skip_test, exists_b, is_dir_b, getsize. rewrite GS, GD. cbn.
+        now rewrite Nat.leb_refl. }
+      now rewrite copypath_run_unfold, TG.
   - assert (T2 : skip_test dsize source dest f2 = false)
       by (now rewrite (skip_test_ext dsize source dest f f2 AS AD)).
     now rewrite copypath_run_unfold, T2, IDEM.
@@ -483,23 +420,23 @@ Proof.
   assert (ND : is_dir_b f [part] = false).
   { unfold is_dir_b. cbn [lookup]. destruct D as [-> | (d & -> & _)]; reflexivity. }
   assert (T : skip_test dsize source [part] f = false).
-  { unfold skip_test, exists_b, getsize. rewrite LS. cbn [lookup negb orb].
+  { unfold skip_test. rewrite ND. unfold exists_b, getsize. rewrite LS. cbn [lookup negb orb].
     destruct D as [-> | (d & -> & Hd)]; [reflexivity|]. cbn [node_size andb].
     now apply Nat.leb_gt. }
   rewrite copypath_run_unfold, T. cbn [removelast mkdir_loop].
   unfold shutil_copy, copy_target. rewrite ND, LS, (path_eqb_neq _ _ NE), ND. reflexivity.
 Qed.
 
-(* The code before the repair did NOTHING for such a destination, although the source exists
-   and the destination does not (the defect found by this model, reproduced with
-   `rebuild ... -d .` on a single-file torrent). *)
+(** * The earlier versions of the code, refuted *)
+
+(* Before b5b5a4c the code did NOTHING for a single-part destination, although the source
+   exists and the destination does not (reproduced with `rebuild ... -d .` on a single-file
+   torrent). *)
 Theorem copypath_old_single_part_noop : forall dsize source part f,
   copypath_run_old dsize source [part] f = Ok f.
 Proof.
   intros dsize source part f. unfold copypath_run_old.
-  destruct (negb (exists_b f source)
-            || exists_b f [part] && (getsize dsize f source <=? getsize dsize f [part]));
-  reflexivity.
+  destruct (skip_test_old dsize source [part] f); reflexivity.
 Qed.
 
 Theorem copypath_old_single_part_refuted :
@@ -516,10 +453,39 @@ Proof.
   split; vm_compute; reflexivity.
 Qed.
 
-(* on destinations of two or more parts the repair changed nothing *)
+(* Before ff51958 the frame statement was FALSE: when dest is an existing directory whose
+   reported size is below the source's size, shutil.copy put the file INTO it -- a path
+   that is neither dest nor an ancestor of dest changed.  The current code leaves such a
+   filesystem alone. *)
+Definition refute_fs : fs :=
+  fs_of_list [ (["s"], Dir); (["s"; "big"], File (repeat "x"%char 5));
+               (["d"], Dir); (["d"; "name"], Dir) ]%string.
+
+Theorem copypath_old_dir_dest_refuted :
+  exists dsize source dest f p,
+    p <> dest /\ ~ is_new_ancestor f p dest /\ ~ prefix p dest /\
+    fs_of (copypath_run_old_dir dsize source dest f) p <> f p /\
+    copypath_run dsize source dest f = Ok f.
+Proof.
+  exists 4, ["s"; "big"]%string, ["d"; "name"]%string, refute_fs, ["d"; "name"; "big"]%string.
+  split; [discriminate|]. split; [|split; [|split]].
+  - intros (_ & PP & _). apply proper_prefix_length in PP. cbn in PP. lia.
+  - intros (r & E). apply (f_equal (@length _)) in E. rewrite app_length in E. cbn in E. lia.
+  - vm_compute. discriminate.
+  - apply copypath_dir_dest_untouched. reflexivity.
+Qed.
+
+(* where the three versions agree: dest of two or more parts that is not a directory *)
 Theorem copypath_old_same_on_longer_dest : forall dsize source a b tl f,
-  copypath_run_old dsize source (a :: b :: tl) f = copypath_run dsize source (a :: b :: tl) f.
-Proof. reflexivity. Qed.
+  is_dir_b f (a :: b :: tl) = false ->
+  copypath_run_old dsize source (a :: b :: tl) f = copypath_run dsize source (a :: b :: tl) f /\
+  copypath_run_old_dir dsize source (a :: b :: tl) f = copypath_run dsize source (a :: b :: tl) f.
+Proof.
+  intros dsize source a b tl f ND.
+  assert (E : skip_test dsize source (a :: b :: tl) f = skip_test_old dsize source (a :: b :: tl) f).
+  { unfold skip_test, skip_test_old. rewrite ND. now rewrite orb_false_r. }
+  unfold copypath_run_old, copypath_run_old_dir, copypath_run. rewrite E. split; reflexivity.
+Qed.
 
 (** * Examples *)
 Open Scope string_scope.
@@ -575,7 +541,8 @@ Proof. vm_compute. reflexivity. Qed.
 Print Assumptions copypath_changes.
 Print Assumptions copypath_frame.
 Print Assumptions copypath_frame_partial.
-Print Assumptions copypath_frame_refuted.
+Print Assumptions copypath_dir_dest_untouched.
+Print Assumptions copypath_old_dir_dest_refuted.
 Print Assumptions copypath_full_length_untouched.
 Print Assumptions copypath_missing_source_untouched.
 Print Assumptions copypath_source_untouched.
